@@ -2,6 +2,7 @@ import Heathcliff.Proofs.C06Y
 import Heathcliff.Gen.Forms
 import Heathcliff.Model.Evaluator
 import Heathcliff.Proofs.GenValid
+import Heathcliff.Proofs.GenEvalCt2
 /-
   C06 — API variants agree: the shape of every public Evaluator method family is extracted from the Rust source on every run
   (`Heathcliff/Gen/Forms.lean`); the theorems below are about that generated table, so a `_new` / destination form that stops
@@ -282,4 +283,26 @@ theorem bfvMultiply_valid_iff_canon : type_of% @HC.bfvMultiply_valid_iff_canon :
     valid ciphertext at the next level — every intermediate object satisfies the hypotheses of the next operation -/
 theorem multiply_relinearize_drop_valid : type_of% @HC.multiply_relinearize_drop_valid := @HC.multiply_relinearize_drop_valid
 
+/-! ### translator tie (phase 4g): `Evaluator::multiply_plain_inplace` (dispatch over the four representation combinations, generated as a PLAN:
+     which routines run in which order) and `multiply_plain_ntt` (on the flat buffers), src/evaluator.rs -> Gen/EvalCtFns.lean, = `multiplyPlainPlan`
+     / `ctMultiplyPlainNtt` + `mulPlainScaleRule` of Model/Evaluator.lean (Proofs/GenEval2.lean, Proofs/GenEvalCt2.lean).  TRUSTED table reading:
+     the step codes (1 `multiply_plain_ntt`, 2 `multiply_plain_normal`, 3 `transform_plain_to_ntt_inplace` on a clone, 4 / 5
+     `transform_to_ntt_inplace` / `transform_from_ntt_inplace` = the checked, fully reducing transforms; the raw kernels `polymod::ntt_lazy_ps`,
+     `intt_lazy_ps`, ... have codes of their own).  `multiply_plain_normal` itself is NOT tied (no hand model of the plaintext lift + NTT route). -/
+theorem gen_multiply_plain_plan_eq : type_of% @HC.gl_multiply_plain_plan_eq := @HC.gl_multiply_plain_plan_eq
+theorem gen_multiply_plain_plan_refuses : type_of% @HC.gl_multiply_plain_plan_refuses := @HC.gl_multiply_plain_plan_refuses
+theorem gen_runPlainPlan : type_of% @HC.gl_runPlainPlan := @HC.gl_runPlainPlan
+theorem gen_multiply_plain_ntt_eq : type_of% @HC.gc_multiply_plain_ntt_eq := @HC.gc_multiply_plain_ntt_eq
+theorem gen_multiply_plain_ntt_refuses : type_of% @HC.gc_multiply_plain_ntt_refuses := @HC.gc_multiply_plain_ntt_refuses
+
+/-- `multiply_plain_normal` (coefficient-form operands): the ROUTE (monomial shortcut / generic NTT route, with / without the fast plain lift; the
+    data steps are codes, the last of the generic route being the FULL inverse transform `intt_ps`) and the CKKS scale rule at both exits -/
+theorem gen_multiply_plain_normal_plan_eq : type_of% @HC.gl_multiply_plain_normal_plan_eq := @HC.gl_multiply_plain_normal_plan_eq
+/-- non-vacuity of the hypothesis bundle of `gen_multiply_plain_ntt_eq`: the example BGV level (two moduli 17, n = 2), a size-2 ciphertext -/
+example : HC.GenC.ct_multiply_plain_ntt (List.replicate 8 3) 2 (List.replicate 4 2) true true HC.c02v_exLevel.qs.toList HC.c02v_exLevel.n .bgv true true =
+    (do let c ← HC.ctMultiplyPlainNtt HC.c02v_exLevel (HC.unflattenCt HC.c02v_exLevel 2 (List.replicate 8 3) true 1)
+                  (HC.unflattenRns HC.c02v_exLevel.size HC.c02v_exLevel.n (List.replicate 4 2))
+        let sc ← HC.mulPlainScaleRule .bgv true
+        pure (HC.flattenCt HC.c02v_exLevel c, sc)) :=
+  HC.gc_multiply_plain_ntt_eq HC.c02v_exLevel _ _ 2 1 .bgv true true (by decide) (by decide) (by decide) (by decide) (by decide)
 end HC.C06
